@@ -8,6 +8,7 @@ CONSTANTS
   ASMHttpFail <- GenASMHttpFail
   ASMFlagDocs <- GenASMFlagDocs
   ASMDocs <- GenASMDocs
+  ASMRest <- GenASMRest
   RegConfigs <- GenRegConfigs
   PreRels <- GenPreRels
   DCROutcomes <- GenDCROutcomes
